@@ -317,6 +317,16 @@ func (e *env) doFund(o opSpec) (failed bool) {
 			uncSum = uncSum.Add(v)
 		}
 	}
+	if o.Unc {
+		// the branch "unconfirmed candidates must be unreserved" is exercised when a
+		// same-version unconfirmed output is held by an outstanding request at this call
+		for id := range created {
+			if pv2, ok := e.creatorV2(id); ok && pv2 == o.V2 && e.isReservedBefore(id, t) {
+				e.stats["fund:useUnconfirmed-with-reserved-unconfirmed-candidate"]++
+				break
+			}
+		}
+	}
 	f := &fundedTx{v2: o.V2, existing: o.Existing, unc: o.Unc, lo: t}
 	var err error
 	var sel []types.SiacoinOutputID
@@ -418,6 +428,11 @@ func (e *env) doFund(o opSpec) (failed bool) {
 		}
 		e.funded = append(e.funded, f)
 		res = fmt.Sprintf("RFund %s %s %d", nlist(e.aids(sel)), zlit(change), basisH)
+		for _, id := range sel {
+			if _, ok := created[id]; ok {
+				e.stats["fund:unconfirmed-input-selected"]++
+			}
+		}
 		if e.lagging() {
 			e.stats["fund:ok-while-store-behind"]++
 		}
